@@ -375,7 +375,7 @@ record Rk { a: u64, t: Tr }
 fn g() -> u64 { KR.a + KA.n }
 fn helper(x: u64) -> u64 { x * 2 }
 fn f(x: u64) -> u64 { helper(x) + KI + cap() + cap2() - 801 + capz() - 3 + RC.payload() + KT.payload() }
-fn mk_list() -> List[String] { let l = [\"a\"]; l.push(\"b\"); l }
+fn mk_list() -> List[String] { let l = [\"c\"]; l.push(\"b\"); l }
 ";
 
 type H = TypedFunc<NoCtx, fn(u64) -> u64>;
@@ -544,7 +544,20 @@ fn replay(hist: &[Op], last: Op) -> Result<String, (String, Value)> {
             Op::MakeList(p) => {
                 let f = real.pkgs[p].as_mut().unwrap().get_function::<fn() -> roto::List<roto::RotoString>>("mk_list");
                 match f {
-                    Ok(f) => real.list = Some(f.call()),
+                    Ok(f) => {
+                        let l = f.call();
+                        // the literals of THIS version (same lengths in both versions, so that
+                        // anything remembered per address or per length from an earlier,
+                        // dropped package shows: seeded change C12-8 interned string literals
+                        // by the address of their data)
+                        let version = model.modules[model.pkgs[p].unwrap()].version;
+                        let want: Vec<String> = if version == 1 { vec!["a".into(), "b".into()] } else { vec!["c".into(), "b".into()] };
+                        let got: Vec<String> = l.to_vec().iter().map(|s| s.to_string()).collect();
+                        if got != want {
+                            return Err(("wrong-literals".into(), json!({"step": step, "list_made_by_version": version, "got": got, "expected": want})));
+                        }
+                        real.list = Some(l);
+                    }
                     Err(e) => return Err(("get_function".into(), json!(e.to_string()))),
                 }
             }
